@@ -57,3 +57,10 @@ Theorem C05_handler_panics_never_crash : forall P cfg threads sched,
   forall a c, assoc_get (code (fst (run P cfg (init_state threads) sched))) a = Some c -> ~ In ICrashed c.
 Proof. exact handler_panics_never_crash. Qed.
 Print Assumptions C05_handler_panics_never_crash.
+
+(* "a panicking Sequential handler can run again": over every schedule, whoever is recorded as the holder of a Sequential
+   handler's mutex still carries the matching deferred unlock - a panic never leaves the mutex locked for ever *)
+Theorem C05_sequential_lock_not_orphaned : forall P cfg s, reachable P cfg s ->
+  forall rid a, assoc_get (seqlocks s) rid = Some a -> exists c, assoc_get (code s) a = Some c /\ 0 < held rid c.
+Proof. exact no_orphaned_handler_lock. Qed.
+Print Assumptions C05_sequential_lock_not_orphaned.
